@@ -5,6 +5,7 @@ import (
 	"encoding/json"
 	"fmt"
 	"os"
+	"reflect"
 	"strings"
 
 	"github.com/corestario/kyber"
@@ -52,7 +53,7 @@ func otherPolynomial(r *kit.Run, w *world.World, round string, t, D, V int) ([]b
 		inst.StorePubKey(w.Nodes[i].Name, i, x.M.GetPubKey())
 	}
 	other := sha256.Sum256([]byte("another dealer polynomial"))
-	if err := inst.InitDKGInstance(other[:]); err != nil {
+	if err := initDKGInstance(inst, other[:]); err != nil {
 		r.Infra("second dealer instance: %v", err)
 	}
 	deals, err := inst.GetDeals()
@@ -563,4 +564,27 @@ func runC11(r *kit.Run, n, t, D, V int, dv deviation, allOrders bool) {
 	if V == (D+1)%n && D == 0 {
 		r.Sample(map[string]interface{}{"scenario": label, "states": res.States})
 	}
+}
+
+// initDKGInstance calls (*dkg.DKG).InitDKGInstance with a seed whether the repository's function
+// takes the seed itself or a reader made from it (a refactoring of that signature must not stop
+// every check that links this file from building).
+func initDKGInstance(inst *dkg.DKG, seed []byte) error {
+	m := reflect.ValueOf(inst).MethodByName("InitDKGInstance")
+	if !m.IsValid() || m.Type().NumIn() != 1 {
+		return fmt.Errorf("InitDKGInstance has an unexpected shape")
+	}
+	var arg reflect.Value
+	if m.Type().In(0) == reflect.TypeOf([]byte(nil)) {
+		arg = reflect.ValueOf(seed)
+	} else if reflect.TypeOf((*frand.RNG)(nil)).AssignableTo(m.Type().In(0)) || reflect.TypeOf((*frand.RNG)(nil)).Implements(m.Type().In(0)) {
+		arg = reflect.ValueOf(frand.NewCustom(seed, 32, 20))
+	} else {
+		return fmt.Errorf("InitDKGInstance takes a %s", m.Type().In(0))
+	}
+	out := m.Call([]reflect.Value{arg})
+	if len(out) == 1 && !out[0].IsNil() {
+		return out[0].Interface().(error)
+	}
+	return nil
 }
